@@ -40,6 +40,10 @@ def check(ctx):
 
 
 # ------------------------------------------------------------------------------------------------ R1
+import os
+VALUES_FIRST = not os.environ.get('GSA_C20_SYNTACTIC')  # decide on values first; the syntactic reading is the fallback
+
+
 def check_decorator(ctx, rule='R1'):
     fi = ctx.fn('gemdat.caching.weak_lru_cache')
     wrapper = inner_cached = caller = None
@@ -58,6 +62,11 @@ def check_decorator(ctx, rule='R1'):
                     and isinstance(n.value.args[0], ast.Name) and n.value.args[0].id in inner_defs:
                 inner_cached = inner_defs[n.value.args[0].id]
                 cached_name = n.targets[0].id
+    if (inner_cached is None or VALUES_FIRST) and check_decorator_values(ctx, rule, fi):
+        if inner_cached is not None:
+            check_key_only_dereferenced(ctx, rule, fi, inner_cached)
+        check_direct_caches(ctx, rule, fi)
+        return
     if inner_cached is None:
         any_lru = any('lru_cache' in norm_text(n) for n in ast.walk(fi.node) if isinstance(n, (ast.Attribute, ast.Name)))
         ctx.ob(rule, fi, fi.node.name, None if any_lru else False, 'no functools.lru_cache-decorated inner function: results are not memoised '
@@ -65,20 +74,9 @@ def check_decorator(ctx, rule='R1'):
                'use of functools.lru_cache in the wrapper not recognised')
         return
     # (a) the cached function uses its first parameter only by calling it
-    a = inner_cached.args
-    first = (a.posonlyargs + a.args)[0].arg if (a.posonlyargs + a.args) else None
+    first = check_key_only_dereferenced(ctx, rule, fi, inner_cached)
     if first is None:
-        ctx.ob(rule, fi, inner_cached.name, None, 'cached inner function has no positional self parameter')
         return
-    uses = [n for n in ast.walk(inner_cached) if isinstance(n, ast.Name) and n.id == first and isinstance(n.ctx, ast.Load)]
-    pm = {}
-    for n in ast.walk(inner_cached):
-        for c in ast.iter_child_nodes(n):
-            pm[id(c)] = n
-    bad = [u for u in uses if not (isinstance(pm.get(id(u)), ast.Call) and pm[id(u)].func is u and not pm[id(u)].args)]
-    ctx.ob(rule, fi, f'{inner_cached.name}({first}, ...)', not bad,
-           'the weak reference is only dereferenced' if not bad else
-           f'`{first}` (the cache key) is used other than by dereferencing it: {norm_text(pm.get(id(bad[0]), bad[0]))}')
     # (b) every call of the cached function passes weakref.ref(<self param of the caller>) first
     callers = []
     for n in ast.walk(fi.node):
@@ -119,6 +117,102 @@ def check_decorator(ctx, rule='R1'):
              for c in inner_calls)
     ctx.ob(rule, fi, inner_cached.name + ' body', True if ok else None,
            'calls func(self(), *args, **kwargs)' if ok else 'the cached function does not forward (self(), *args, **kwargs)')
+    check_direct_caches(ctx, rule, fi)
+
+
+def check_key_only_dereferenced(ctx, rule, fi, inner_cached):
+    a = inner_cached.args
+    first = (a.posonlyargs + a.args)[0].arg if (a.posonlyargs + a.args) else None
+    if first is None:
+        ctx.ob(rule, fi, inner_cached.name, None, 'cached inner function has no positional self parameter')
+        return None
+    uses = [n for n in ast.walk(inner_cached) if isinstance(n, ast.Name) and n.id == first and isinstance(n.ctx, ast.Load)]
+    pm = {}
+    for n in ast.walk(inner_cached):
+        for c in ast.iter_child_nodes(n):
+            pm[id(c)] = n
+    bad = [u for u in uses if not (isinstance(pm.get(id(u)), ast.Call) and pm[id(u)].func is u and not pm[id(u)].args)]
+    ctx.ob(rule, fi, f'{inner_cached.name}({first}, ...)', not bad,
+           'the weak reference is only dereferenced' if not bad else
+           f'`{first}` (the cache key) is used other than by dereferencing it: {norm_text(pm.get(id(bad[0]), bad[0]))}')
+    return first
+
+
+def check_decorator_values(ctx, rule, fi):
+    """Decide the decorator by applying it abstractly: weak_lru_cache()(f) gives the public method; calling that method on an
+    object must reach a functools.lru_cache table keyed on (weakref.ref(object), the call arguments) and call f(object, arguments).
+    Returns False when the decorator could not be applied (nothing is reported then)."""
+    from ..interp import AV, Frame
+    it = ctx.entry(fi.qualname)
+    wrapper, st = it.result, it.final_state
+    if wrapper is None or wrapper.ty != 'func':
+        return False
+    f = AV(ty='symfunc', name='f')
+    fr = Frame(None, fi.module, st)
+    n0 = len(it.events)
+    method = it.call_value(wrapper, [f], {}, fr, st, fi.node)
+    if method is None or method.ty not in ('func', 'lru_cached', 'partial', 'lambda'):
+        return False
+    obj = it.new_obj(st, 'gemdat.jumps.Jumps', symbolic=True)
+    a, k = AV(ty='int', symarg='a'), AV(ty='int', symarg='k')
+    res = it.call_value(method, [obj, a], {'k': k}, fr, st, fi.node)
+    ev = it.events[n0:]
+    lru = [e for e in ev if e['tag'] == 'lru_call']
+    sym = [e for e in ev if e['tag'] == 'symfunc_call']
+    if not lru and not sym:
+        return False
+
+    def flat(args, kwargs):
+        out = list(args)
+        for kk, v in kwargs.items():
+            if kk == '**' and v is not None and v.kw:
+                out += list(v.kw.values())
+            else:
+                out.append(v)
+        out2 = []
+        for v in out:
+            if v is not None and v.star and v.src is not None and v.src.elts is not None:
+                out2 += list(v.src.elts)
+            else:
+                out2.append(v)
+        return out2
+
+    def has_arg(vals, name):
+        return any(v is not None and (v.symarg == name or (v.elts is not None and any(x is not None and x.symarg == name for x in v.elts))) for v in vals)
+
+    if not lru:
+        ctx.ob(rule, fi, fi.node.name, False, 'no functools.lru_cache table is consulted when the decorated method is called: results are not memoised '
+                                              'through the weak-key wrapper')
+    for e in lru[:1]:
+        vals = flat(e['args'], e['kwargs'])
+        k0 = e['args'][0] if e['args'] else None
+        if k0 is None:
+            ctx.ob(rule, fi, e['node'], False, 'cached function called without a key for self')
+        elif k0.ty == 'weakref' and k0.of is not None and k0.of.ty == 'obj' and k0.of.oid == obj.oid:
+            ctx.ob(rule, fi, e['node'], True, 'keyed on weakref.ref(self)')
+        elif k0.id_of is not None or (k0.ty == 'int' and k0.symarg is None):
+            ctx.ob(rule, fi, e['node'], False, 'keyed on id(self) / a number derived from self: a new object at a recycled address receives the old result')
+        elif k0.ty == 'obj' and k0.oid == obj.oid:
+            ctx.ob(rule, fi, e['node'], False, 'keyed on self itself: the cache keeps every object alive (strong reference)')
+        else:
+            ctx.ob(rule, fi, e['node'], None, 'unrecognised key for self')
+        okargs = has_arg(vals[1:], 'a') and has_arg(vals[1:], 'k')
+        ctx.ob(rule, fi, f'{norm_text(e["node"])} [arguments]', True if okargs else None,
+               'the call arguments are part of the key' if okargs else 'the call arguments were not found in the key')
+    for e in sym[:1]:
+        vals = flat(e['args'], e['kwargs'])
+        first = e['args'][0] if e['args'] else None
+        ok = first is not None and first.ty == 'obj' and first.oid == obj.oid and has_arg(vals[1:], 'a') and has_arg(vals[1:], 'k')
+        ctx.ob(rule, fi, 'wrapped call', True if ok else None,
+               'calls func(self(), *args, **kwargs)' if ok else 'the cached function does not forward (self(), *args, **kwargs)')
+    if not sym:
+        ctx.ob(rule, fi, 'wrapped call', None, 'the wrapped function is not reached')
+    okres = res is not None and res.symresult == 'f'
+    ctx.ob(rule, fi, 'result', True if okres else None, 'returns the result of the wrapped function' if okres else 'the result of the wrapped function is not returned unchanged')
+    return True
+
+
+def check_direct_caches(ctx, rule, fi):
     # (d) maxsize/typed forwarded; (e) zero direct functools caches on methods
     import re
     n_direct = 0
